@@ -869,36 +869,26 @@ func (r *Reader) processParagraph(p paragraphXML) parsedParagraph {
 		parsed.IndentFirst = resolved.IndentFirst
 	}
 
-	// Extract text
-	var textParts []string
-
-	// Direct text content
-	if p.Text != "" {
-		textParts = append(textParts, p.Text)
-	}
-
-	// Text from spans
-	for _, span := range p.Spans {
-		if span.Text != "" {
-			textParts = append(textParts, span.Text)
-
-			// Create run for formatting
-			pr := parsedRun{Text: span.Text}
-			if r.styleResolver != nil {
-				resolved := r.styleResolver.Resolve(span.StyleName)
-				pr.FontName = resolved.FontName
-				pr.FontSize = resolved.FontSize
-				pr.Bold = resolved.Bold
-				pr.Italic = resolved.Italic
-				pr.Underline = resolved.Underline
-				pr.Strike = resolved.Strike
-				pr.Color = resolved.Color
-			}
-			parsed.Runs = append(parsed.Runs, pr)
+	// Extract text in document order, creating a run for each formatted span
+	for _, c := range p.Content {
+		if c.Span == nil || c.Span.Text == "" {
+			continue
 		}
+		pr := parsedRun{Text: c.Span.Text}
+		if r.styleResolver != nil {
+			resolved := r.styleResolver.Resolve(c.Span.StyleName)
+			pr.FontName = resolved.FontName
+			pr.FontSize = resolved.FontSize
+			pr.Bold = resolved.Bold
+			pr.Italic = resolved.Italic
+			pr.Underline = resolved.Underline
+			pr.Strike = resolved.Strike
+			pr.Color = resolved.Color
+		}
+		parsed.Runs = append(parsed.Runs, pr)
 	}
 
-	parsed.Text = strings.Join(textParts, "")
+	parsed.Text = inlineText(p.Content)
 
 	return parsed
 }
@@ -928,22 +918,8 @@ func (r *Reader) processHeading(h headingXML) parsedParagraph {
 		}
 	}
 
-	// Extract text
-	var textParts []string
-
-	// Direct text content
-	if h.Text != "" {
-		textParts = append(textParts, h.Text)
-	}
-
-	// Text from spans
-	for _, span := range h.Spans {
-		if span.Text != "" {
-			textParts = append(textParts, span.Text)
-		}
-	}
-
-	parsed.Text = strings.Join(textParts, "")
+	// Extract text in document order
+	parsed.Text = inlineText(h.Content)
 
 	return parsed
 }
@@ -1027,21 +1003,7 @@ func (r *Reader) extractMasterFooterText(footer *masterFooterXML) string {
 
 // extractMasterParagraphText extracts text from a header/footer paragraph.
 func (r *Reader) extractMasterParagraphText(para masterParagraphXML) string {
-	var textParts []string
-
-	// Direct text content
-	if para.Text != "" {
-		textParts = append(textParts, para.Text)
-	}
-
-	// Text from spans
-	for _, span := range para.Spans {
-		if span.Text != "" {
-			textParts = append(textParts, span.Text)
-		}
-	}
-
-	return strings.Join(textParts, "")
+	return inlineText(para.Content)
 }
 
 // HasHeaders returns true if the document has header content.
